@@ -1,7 +1,9 @@
 #!/bin/bash
 # usage: tools_confirm_seed.sh <ID> <pkgdir> : confirm a seeded change in a fresh scratch worktree
 # (compiles, existing tests pass, demo fails with the change and passes without), then store it under /verif/seeded/<ID>/
-ID=$1; PKG=${2:-./proxy}; SEED=${3:-/tmp/seed_$ID}; NAME=${4:-$ID}
+ID=$1; SEED=${3:-/tmp/seed_$ID}; NAME=${4:-$ID}
+PD=$(head -1 $SEED/demo_test.go | sed -n 's#^// package-dir: *##p')
+PKG=${2:-./${PD:-proxy}}
 export GOFLAGS=-mod=mod GOPROXY=off
 WT=/tmp/confirm_$NAME
 cd /repo && git worktree add -q $WT HEAD || exit 1
